@@ -118,5 +118,21 @@ def acc : Handler := fun args impl =>
     | none => o
   | _ => o
 
-def handlers : List (String × Handler) := [("int", int), ("acc", acc)]
+/-- `accbig <cfg> <n> <m> => as_f64 bits or N`: the literal `1` followed by `n` zeros and the exponent `e-<m>`
+    (too long to ship on the line: ≥ 65 KB). Model: `Model.NumberAp.asF64` on the very text; specification: for
+    `n = m` the literal's exact value is 1, whose nearest binary64 is `0x3ff0000000000000`. -/
+def accbig : Handler := fun args impl =>
+  match args with
+  | [_, ns, ms] =>
+    match ns.toNat?, ms.toNat? with
+    | some n, some m =>
+      let lit : Bytes := 0x31 :: (List.replicate n 0x30 ++ [0x65, 0x2d] ++ bytesOfString (toString m))
+      let model := match NumberAp.asF64 lit with | some b => hex16 b | none => "N"
+      let specs := if n == m && impl != "3ff0000000000000" then
+        [s!"C20 as_f64 of 1 followed by {n} zeros e-{m} (exactly 1) = {impl}, the nearest finite f64 is 3ff0000000000000"] else []
+      { model := model, specs := specs }
+    | _, _ => bad "number"
+  | _ => bad "arity"
+
+def handlers : List (String × Handler) := [("int", int), ("acc", acc), ("accbig", accbig)]
 end SJ.Drv.C06Via
